@@ -1,8 +1,117 @@
 import Driver.Util
-open Lean
+import Driver.C11
+import Paroxy.Model.Collect
+import Paroxy.Spec.Collect
+open Lean Paroxy Paroxy.DB Paroxy.Collect
 
 namespace Driver.C14
+open Driver.C11
 
-def handlers : List (String × Handler) := []
+/-- What the recorded parser did on one stored source. -/
+inductive ParseRes
+  | empty
+  | labels (ls : List Label)
+  | featExc (e : Exc)
+
+def getExc (j : Json) : Except String Exc := do
+  let n ← getName (← j.getObjVal? "exc")
+  let c ← (← j.getObjVal? "caught").getBool?
+  pure { name := n, caught := c }
+
+/-- `{"ok": text}` or `{"exc": name, "caught": bool}` -/
+def getCleanRes (j : Json) : Except String (Except Exc DB.Name) :=
+  match j.getObjVal? "ok" with
+  | .ok t => do
+    let s ← getName t
+    pure (.ok s)
+  | .error _ => do
+    let e ← getExc j
+    pure (.error e)
+
+/-- `{"exc": name, "caught": bool}` | `{"empty": true}` | `{"labels": […]}` | `{"features_exc": {...}}` -/
+def getParseRes (j : Json) : Except String (Except Exc ParseRes) :=
+  match j.getObjVal? "labels" with
+  | .ok l => do
+    let ls ← getLabels l
+    pure (.ok (.labels ls))
+  | .error _ =>
+    match j.getObjVal? "empty" with
+    | .ok _ => pure (.ok .empty)
+    | .error _ =>
+      match j.getObjVal? "features_exc" with
+      | .ok fe => do
+        let e ← getExc fe
+        pure (.ok (.featExc e))
+      | .error _ => do
+        let e ← getExc j
+        pure (.error e)
+
+def lookupD {β : Type} (t : List (DB.Name × β)) (k : DB.Name) (dflt : β) : β :=
+  (get? t k).getD dflt
+
+/-- The externals instantiated by the recorded behaviour of the real components:
+`clean` : raw text ↦ result, `prepare` : cleaned text ↦ stored source, `parse` : stored source ↦ result. -/
+def mkExt (cleanT : List (DB.Name × Except Exc DB.Name)) (prepT : List (DB.Name × DB.Name))
+    (parseT : List (DB.Name × Except Exc ParseRes)) : Ext ParseRes :=
+  { clean := fun raw => lookupD cleanT raw (.ok raw)
+    prepare := fun s => lookupD prepT s s
+    parse := fun src => lookupD parseT src (.ok .empty)
+    isEmpty := fun t => match t with | .empty => true | _ => false
+    features := fun _ t => match t with
+      | .labels ls => .ok ls
+      | .featExc e => .error e
+      | .empty => .ok [] }
+
+def readExt (j : Json) : Except String (Ext ParseRes) := do
+  let cleanT ← getDict getCleanRes (← j.getObjVal? "clean")
+  let prepT ← getDict getName (← j.getObjVal? "prepare")
+  let parseT ← getDict getParseRes (← j.getObjVal? "parse")
+  pure (mkExt cleanT prepT parseT)
+
+def jExc (e : Exc) : Json := Json.mkObj [("exc", jName e.name), ("caught", Json.bool e.caught)]
+
+/-- `c14.collect`: files = [[path, raw], …]; taxa = [[path, taxa], …] (recorded taxonomy answers).
+Also says at which stage the model aborts. -/
+def collectH : Handler := fun j => do
+  let X ← readExt j
+  let files ← getDict getName (← j.getObjVal? "files")
+  let table ← getDict getTaxa (← j.getObjVal? "taxa")
+  let stage : String :=
+    match parseAll X (cleanAll X files) with
+    | .error _ => "parse"
+    | .ok _ => "makeDb"
+  match collect X (oracle table) files with
+  | .error e => pure (Json.mkObj [("exc", jName e.name), ("stage", stage)])
+  | .ok db => pure (Json.mkObj [("db", jDb db), ("sqlite", jSqlite db)])
+
+/-- `c14.tag`: `cli_tag.main(source)`; taxa = the recorded answer of the taxonomy on the labels. -/
+def tagH : Handler := fun j => do
+  let X ← readExt j
+  let src ← getName (← j.getObjVal? "source")
+  let taxa ← getTaxa (← j.getObjVal? "taxa")
+  match tagMain X (fun _ _ => taxa) src with
+  | .error e => pure (Json.mkObj [("exc", jName e.name)])
+  | .ok r => pure (Json.mkObj [
+      ("labels", jPairs (fun (s : List Span3) => Json.arr (s.map fun (x : Span3) =>
+          Json.arr #[jInt x.1, jInt x.2.1, jName x.2.2]).toArray)
+        (r.1.map fun l => (l.name, l.spans))),
+      ("taxa", jNames (r.2.map (·.name)))])
+
+/-- `c14.spec_check`: the property predicate `reportedB` on an implementation output. -/
+def specCheck : Handler := fun j => do
+  let fs ← getArr j "files"
+  let files ← fs.toList.mapM fun f => do
+    let p ← getName (← f.getObjVal? "path")
+    let v ← (← f.getObjVal? "valid").getBool?
+    let e ← (← f.getObjVal? "empty").getBool?
+    let n ← match f.getObjVal? "err" with
+      | .ok x => getName x
+      | .error _ => pure []
+    pure ({ path := p, valid := v, empty := e, errName := n } : FileInfo)
+  let keys ← getDict getNames (← j.getObjVal? "taxa_keys")
+  pure (Json.mkObj [("r", Json.bool (reportedB files keys))])
+
+def handlers : List (String × Handler) :=
+  [("c14.collect", collectH), ("c14.tag", tagH), ("c14.spec_check", specCheck)]
 
 end Driver.C14
